@@ -29,9 +29,9 @@ func L(pol bool, keys ...string) Lit { return Lit{Keys: keys, Pol: pol} }
 
 // HandlerInfo describes the fid lookups of one handler function.
 type HandlerInfo struct {
-	Fi      *FuncInfo
-	Recv    string            // receiver variable name
-	Lookups map[string]string // local variable -> request field ("fid", "Directory")
+	Fi          *FuncInfo
+	Recv        string            // receiver variable name
+	Lookups     map[string]string // local variable -> request field ("fid", "Directory")
 	LookupSites []*ast.CallExpr
 }
 
@@ -214,31 +214,36 @@ func (m *ServerModel) checkGuard(h *HandlerInfo, st *HState, g Guard, exits []*E
 		return true, "precondition holds on every path"
 	}
 	// 2. The exits taken when the condition is true return the errno.
+	// Exits of helpers analysed in place are consulted only when the handler itself has no exit
+	// for the guard (the test was moved into a helper): a helper called later with the guard's
+	// facts still standing is not the guard's answer.
 	found := false
-	for _, ex := range exits {
-		if ex.St.Dead {
-			continue
-		}
-		hit := false
-		for _, p := range ex.St.Paths {
-			if pathHasAll(h.canonFacts(p), g.Lits) {
-				hit = true
-				break
+	for pass := 0; pass < 2 && !found; pass++ {
+		for _, ex := range exits {
+			if ex.St.Dead || (len(ex.Inl) > 0) != (pass == 1) {
+				continue
 			}
-		}
-		if !hit {
-			continue
-		}
-		v, ok := errnoOf(m.Info, ex.Ret)
-		if !ok {
-			// A later exit that merely inherited the facts (e.g. IsDir true and the
-			// mode test passed) is not a guard exit: skip exits on which the condition
-			// is refuted on some path.
-			continue
-		}
-		found = true
-		if v != g.Errno {
-			return false, fmt.Sprintf("guard %q is answered with %s at %s, the property requires %s", g.Name, errnoName(v), m.L.relPos(ex.Ret.Pos()), errnoName(g.Errno))
+			hit := false
+			for _, p := range ex.St.Paths {
+				if pathHasAll(h.canonFacts(p), g.Lits) {
+					hit = true
+					break
+				}
+			}
+			if !hit {
+				continue
+			}
+			v, ok := errnoOf(m.Info, ex.Ret)
+			if !ok {
+				// A later exit that merely inherited the facts (e.g. IsDir true and the
+				// mode test passed) is not a guard exit: skip exits on which the condition
+				// is refuted on some path.
+				continue
+			}
+			found = true
+			if v != g.Errno {
+				return false, fmt.Sprintf("guard %q is answered with %s at %s, the property requires %s", g.Name, errnoName(v), m.L.relPos(ex.Ret.Pos()), errnoName(g.Errno))
+			}
 		}
 	}
 	if !found {
